@@ -324,6 +324,71 @@ func Generate(r *rng.R) *Scenario {
 		s.tag("upstream-settings-policy")
 	}
 
+	// --- policies with several targetRefs x winning Gateway valid / invalid: an UpstreamSettingsPolicy on 2-3 Services that a
+	// route of the winning Gateway references (or not), an ObservabilityPolicy on several routes; the winning Gateway is made
+	// invalid in half of these cases (spec.addresses is unsupported; or the GatewayClass object is removed)
+	if r.Chance(22, 100) {
+		var win *gatewayv1.Gateway
+		for _, o := range s.Objs {
+			g, ok := o.(*gatewayv1.Gateway)
+			if !ok || string(g.Spec.GatewayClassName) != s.Opts.Class {
+				continue
+			}
+			if win == nil || g.CreationTimestamp.Time.Before(win.CreationTimestamp.Time) ||
+				(g.CreationTimestamp.Time.Equal(win.CreationTimestamp.Time) && g.Namespace+"/"+g.Name < win.Namespace+"/"+win.Name) {
+				win = g
+			}
+		}
+		if win != nil {
+			ns := rng.Pick(r, nss)
+			nsvc := r.Range(2, 3)
+			if nsvc > cfg.Services {
+				nsvc = cfg.Services
+			}
+			var rules []gatewayv1.HTTPRouteRule
+			refd := r.Chance(80, 100)
+			for i := 0; i < nsvc; i++ {
+				if refd || i == 0 {
+					rules = append(rules, p.HTTPRule([]gatewayv1.HTTPRouteMatch{p.PathMatch("PathPrefix", fmt.Sprintf("/multi%d", i))},
+						p.Backend{Ref: fmt.Sprintf("svc%d", i), Port: 80, Weight: -1}))
+				}
+			}
+			pr := gatewayv1.ParentReference{Name: gatewayv1.ObjectName(win.Name), Namespace: ptr(gatewayv1.Namespace(win.Namespace))}
+			s.Objs = append(s.Objs, p.HTTPRoute(ns, "hmulti", nextAge(), []gatewayv1.ParentReference{pr}, nil, rules...))
+			s.Objs = append(s.Objs, p.HTTPRoute(ns, "hmulti2", nextAge(), []gatewayv1.ParentReference{pr}, nil, rules[0]))
+			up := &ngfAPI.UpstreamSettingsPolicy{ObjectMeta: p.Meta(ns, "usp-multi", nextAge())}
+			for i := 0; i < nsvc; i++ {
+				up.Spec.TargetRefs = append(up.Spec.TargetRefs, v1alpha2.LocalPolicyTargetReference{Group: "core", Kind: "Service",
+					Name: gatewayv1.ObjectName(fmt.Sprintf("svc%d", i))})
+			}
+			up.Spec.ZoneSize = ptr(ngfAPI.Size("2m"))
+			s.Objs = append(s.Objs, up)
+			op := &ngfAPIv2.ObservabilityPolicy{ObjectMeta: p.Meta(ns, "obs-multi", nextAge())}
+			for _, n := range []string{"hmulti", "hmulti2"} {
+				op.Spec.TargetRefs = append(op.Spec.TargetRefs, v1alpha2.LocalPolicyTargetReference{
+					Group: gatewayv1.GroupName, Kind: "HTTPRoute", Name: gatewayv1.ObjectName(n)})
+			}
+			op.Spec.Tracing = &ngfAPIv2.Tracing{Strategy: ngfAPIv2.TraceStrategyRatio}
+			s.Objs = append(s.Objs, op)
+			s.tag("policy-multi-target")
+			switch r.Intn(4) {
+			case 0:
+				win.Spec.Addresses = []gatewayv1.GatewayAddress{{Value: "198.51.100.7"}}
+				s.tag("winning-gateway-invalid-addresses")
+			case 1:
+				var objs []client.Object
+				for _, o := range s.Objs {
+					if gc, ok := o.(*gatewayv1.GatewayClass); ok && gc.Name == s.Opts.Class {
+						continue
+					}
+					objs = append(objs, o)
+				}
+				s.Objs = objs
+				s.tag("winning-gateway-invalid-class-missing")
+			}
+		}
+	}
+
 	makeAdmissible(s, r)
 
 	// --- generations: observedGeneration must follow metadata.generation of each object
